@@ -39,7 +39,11 @@ def gen_rt(base, name, opts):
     d = os.path.join(base, name)
     out = os.path.join(d, "gen")
     os.makedirs(out)
-    if name.startswith("rt-wide"):
+    if name.startswith("rt-solo"):
+        from rt import libgen
+        lib = libgen.solo_libraries(**opts)[int(name.split("-")[2])]
+        cases = libgen.cases_of(lib)
+    elif name.startswith("rt-wide"):
         # the wide member of the TLA+ grammar (specs/LibGenPairs.tla); with F_CFI without the functions of the
         # recorded C05 finding, on which Shroud stops
         from rt import libgen
@@ -82,6 +86,10 @@ def collect(name, out, user_dir):
     byname = {}
     for f in funcs:
         byname.setdefault(f["name"], f)
+    # the library's C prefix: a bound name that carries it is a symbol the generated files must define themselves
+    import collections
+    pref = collections.Counter(n.split("_")[0] + "_" for n in byname if "_" in n and n.split("_")[0].isupper())
+    libprefix = pref.most_common(1)[0][0] if pref else None
     sdefs = []
     for k, v in structs.items():
         if k.startswith("__") or v is None:
@@ -108,7 +116,8 @@ def collect(name, out, user_dir):
             unknown += ["unknown-type:" + p["sname"] for p in c["params"] + [c["result"]]
                         if p["cls"] == "struct" and p["sname"] not in known_structs]
         traces.append({"kind": "bind", "events": ev, "tname": "", "sname": "", "label": "%s:%s:%s" % (name, b["file"], b["fname"]),
-                       "unknown": unknown, "defined": c is not None, "cname": b["cname"]})
+                       "unknown": unknown, "defined": c is not None, "cname": b["cname"],
+                       "generated": bool(libprefix and b["cname"].startswith(libprefix))})
     snames = {k.lower() for k, v in structs.items() if v and not k.startswith("__")}
     for t in types:
         tn = t["name"].lower()
@@ -153,13 +162,16 @@ def run(tier):
             c.violation("model:" + bad, "relation-level invariant %s violated" % bad, {"tlc_tail": r.out[-3000:]})
         tests = corpus.tests() if thorough else corpus.quick_subset() + [t for t in corpus.tests() if t.name in ("strings-cfi", "generic-cfi", "arrayclass", "struct-cxx", "ownership", "cdesc")]
         tests = [t for t in tests if t.name != "none"]
+        from rt import libgen as _lg
+        nsolo = len(_lg.solo_libraries())
         traces = []
         with common.scratch("c04-") as base:
             with cf.ThreadPoolExecutor(common.NCPU) as ex:
                 gens = list(ex.map(lambda t: gen_corpus(base, t), tests))
                 gens += list(ex.map(lambda a: gen_rt(base, a[0], a[1]),
                                     [("rt-cxx", {}), ("rt-cxx-cfi", {"F_CFI": True}), ("rt-wide", {}),
-                                     ("rt-wide-cfi", {"F_CFI": True})]))
+                                     ("rt-wide-cfi", {"F_CFI": True})] +
+                                    [("rt-solo-%d" % k, {}) for k in range(nsolo)]))
             for name, out, rc, se, user in gens:
                 if rc != 0:
                     raise MachineryError("generation of %s failed: %s" % (name, se[-300:]))
@@ -172,7 +184,7 @@ def run(tier):
                 continue
             if not t["defined"] and not t["cname"].startswith(tuple("ABCDEFGHIJKLMNOPQRSTUVWXYZ")[:0] or ("",)):
                 pass
-            if not t["defined"]:
+            if not t["defined"] and not t.get("generated"):
                 # bound to a function the generated code does not define: a user function without a shipped header
                 skipped_user += 1
                 continue
